@@ -204,6 +204,13 @@ pub fn parse_peg(src: &str, spans: bool) -> Value {
 		Err(e) => json!({"k":"reject","msg":e.to_string(),"offset":e.location.offset}),
 	}
 }
+pub fn cmd_rowan_tree(cmd: &Value) -> Value {
+	let src = cmd["src"].as_str().unwrap_or("");
+	let (file, errors) = jrsonnet_rowan_parser::parse(src);
+	use jrsonnet_rowan_parser::AstNode;
+	json!({"k":"tree","errors": errors.len(), "tree": format!("{:#?}", file.syntax())})
+}
+
 pub fn parse_rowan(src: &str) -> Value {
 	let (file, errors) = jrsonnet_rowan_parser::parse(src);
 	use jrsonnet_rowan_parser::AstNode;
